@@ -297,6 +297,8 @@ class Source:
     loop_vars: tuple = ()          # `for <v> in range(..)` bodies entered once (entrywise formulas)
     assigned_params: dict = field(default_factory=dict)  # parameter text -> pinned source of its assignment in the function
     ltb: str = "LtB"               # qualified name of the class providing `<` on the carrier
+    entry_loops: tuple = ()        # pinned headers `<target> in <iter>` of column-wise loops entered once
+                                   # (e.g. `(i, (lower, upper)) in enumerate(bounds)`); the unpacked names are params
 
 
 @dataclass
@@ -343,7 +345,22 @@ _NAIVE = Source(
     assigned_params={"self.m": "self.dataset.out_dim", "self.K": "len(self.dataset.in_data)"},
 )
 
+def _norm_src(func):
+    return Source("vopy/utils/utils.py", None, func,
+                  {"data[:, i]": ("x", "R"), "lower": ("lo", "R"), "upper": ("hi", "R")},
+                  entry_loops=("(i, (lower, upper)) in enumerate(bounds)",))
+
+
 SPECS: dict[str, dict] = {
+    "C20": {
+        "imports": ["VOPyVerif.Model.Problem"],
+        "formulas": [
+            Formula("normalizeCol", _norm_src("normalize"), "normalized_data[:, i]", ("lo", "hi", "x"),
+                    hand="Problem.normalizeColF"),
+            Formula("unnormalizeCol", _norm_src("unnormalize"), "unnormalized_data[:, i]", ("lo", "hi", "x"),
+                    hand="Problem.unnormalizeColF"),
+        ],
+    },
     "C04": {
         "imports": ["VOPyVerif.Model.RealLike"],
         "formulas": [
@@ -619,6 +636,10 @@ class Exec:
                     if self.block(s.body, env, in_loop=True) is not None:
                         raise Untranslatable("return inside the entrywise loop")
                     continue
+                if (f"{ast.unparse(s.target)} in {ast.unparse(s.iter)}" in self.src.entry_loops and not s.orelse):
+                    if self.block(s.body, env, in_loop=True) is not None:
+                        raise Untranslatable("return inside the column-wise loop")
+                    continue
                 raise Untranslatable(f"loop 'for {ast.unparse(s.target)} in {ast.unparse(s.iter)}'")
             if isinstance(s, ast.Raise):
                 raise Untranslatable("unconditional raise on the path of the formula")
@@ -743,7 +764,7 @@ def render(prop: str, repo: Path):
     wheres = []
     for fm in spec["formulas"]:
         s = fm.source
-        w = f"{s.file}:{s.cls}.{s.func}"
+        w = f"{s.file}:{(s.cls + '.') if s.cls else ''}{s.func}"
         if w not in wheres:
             wheres.append(w)
     text = (
